@@ -139,6 +139,27 @@ def discover(raw):
     want_fn(failures, SERVER + "::api::failure_to_ise", "the only fn anyhow::Error -> actix Error")
     want_fn(conns, SQLITE + "::SqliteStorage::new_connection", "the only fn returning Result<rusqlite::Connection>")
     want_fn(scopes, SERVER + "::api::api_scope", "the only fn returning an actix Scope")
+    # the error-handler middleware callback of the binary: the only fn returning an ErrorHandlerResponse
+    eh = []
+    for unit, b in bodies():
+        if unit == SERVER + "-bin" and b["kind"] == "Fn":
+            args, ret = sig(b)
+            if "ErrorHandlerResponse<" in ret and len(args) == 1:
+                eh.append(b["def"])
+    want_fn(eh, SERVER + "::print_error", "the only fn (ServiceResponse) -> Result<ErrorHandlerResponse>")
+    # the two urgency classifiers: the core fns (config, measure) -> SnapshotUrgency, told apart by the measure's type
+    fd, fv = [], []
+    for unit, b in bodies():
+        if unit != CORE + "-lib" or b["kind"] != "AssocFn" or "impl_trait" in b:
+            continue
+        args, ret = sig(b)
+        if ret.endswith("::SnapshotUrgency") and len(args) == 2 and args[0].endswith("ServerConfig"):
+            if args[1] == "i64":
+                fd.append(b["def"])
+            elif args[1] == "u32":
+                fv.append(b["def"])
+    want_fn(fd, CORE + "::server::SnapshotUrgency::for_days", "the only fn (&ServerConfig, i64) -> SnapshotUrgency")
+    want_fn(fv, CORE + "::server::SnapshotUrgency::for_versions_since", "the only fn (&ServerConfig, u32) -> SnapshotUrgency")
     # the client-id helper: the workspace fn every handler calls with (state, &req) and whose Ok value is a Uuid
     cid = []
     for unit, b in bodies():
